@@ -268,7 +268,18 @@ def run(chk):
             continue
         if cs is None:
             continue
-        d = json.loads(cs.to_json())      # what a user would have on disk (python json: accepts Infinity)
+        try:
+            d = json.loads(cs.to_json())      # what a user would have on disk (python json: accepts Infinity)
+        except Exception as ex:
+            text = ''
+            try:
+                text = cs.to_json()
+            except Exception:
+                pass
+            chk.violation({'kind': 'tdda-roundtrip', 'clause': 'ValidJson', 'error': type(ex).__name__, 'discovered': True},
+                          {'column_kinds': kinds, 'error': '%s: %s' % (type(ex).__name__, str(ex)[:200]), 'text_around': text[:1500],
+                           'how': 'discover_df(rich frame).to_json() is not parseable (python json, which even accepts Infinity / NaN)'})
+            continue
         w = {'tid': tid, 'kinds': kinds, 'dict': json.loads(json.dumps(d, default=str)), 'discovered': True}
         events += cycle_check(chk, d, root, 'r%d' % tid, rnd, None, w, cycles=rnd.randint(2, 4), df=df)
         meta[tid] = w
@@ -278,7 +289,13 @@ def run(chk):
     res, rejected = trace.validate('Trace_TddaFile', 'Trace_TddaFile.cfg', clean, name='tdda_cycles', workers=4)
     if res.error and 'not fully consumed' in res.error:
         # a line that raised is judged but not stepped over: its successor states do not exist
-        unconsumed = sum(1 for e in clean if e.get('raised', 'none') != 'none')
+        stopped, unconsumed = set(), 0
+        for e in clean:
+            if e['tid'] in stopped:
+                unconsumed += 1
+            elif e.get('raised', 'none') != 'none':
+                stopped.add(e['tid'])
+                unconsumed += 1
         done = [r for r in res.rows if 'consumed' in r]
         if done and done[-1]['consumed'] == len(clean) - unconsumed:
             res.ok, res.error = True, None
